@@ -77,7 +77,27 @@ def main(argv=None):
     budget = getattr(mod, "TIER_BUDGET_S", {}).get(tier)
     results = runner.run_cases(modname, cases, mod, workers=args.workers, budget_s=budget)
 
-    known = {(k["property"], k["key"]): k for k in load_findings() if k.get("status") == "known"}
+    import fnmatch
+
+    known_list = [k for k in load_findings() if k.get("status") == "known" and k["property"] == pid]
+
+    class _Known(dict):
+        """(pid, key) lookup; a listed key may be a glob pattern over the structured mechanism key
+        (e.g. 'decode-error|*packpos=>0*' = every failing case whose minimal failing feature set needs packpos>0)."""
+
+        def _find(self, item):
+            for k in known_list:
+                if fnmatch.fnmatchcase(item[1], k["key"]):
+                    return k
+            return None
+
+        def __contains__(self, item):
+            return self._find(item) is not None
+
+        def __getitem__(self, item):
+            return self._find(item)
+
+    known = _Known()
     viol = {}
     known_hit = {}
     inconc = {}
